@@ -6,7 +6,7 @@ import os, json, glob, collections
 from fractions import Fraction
 from harness.core import *
 from harness.gen_contact import *
-from harness.props.C05 import Struct, configs_for, impl_atoms, forced_structures
+from harness.props.C05 import Struct, configs_for, impl_atoms, forced_structures, carry
 
 ID = 'C14'
 REGIONS = ['contact_test', 'contact_filters', 'contact_defaults', 'const']
@@ -17,15 +17,16 @@ TRUSTED = ['same as C05 (margin rule on the distance test; the table is the one 
 RULE = ('the C05 structures enriched with residues that share a number but differ in name or chain, negative '
         'residue numbers, residues without backbone atoms; for each structure and chain selection all 2^5 '
         'combinations of allchains / only_backbone / excludeH / return_contact_pairs / extend_to_residue '
-        '(get_contact_residues for extend=False, get_contact_atoms for extend=True). Non-trivial: the atom-level '
+        '(get_contact_residues for extend=False, get_contact_atoms for extend=True); a fifth of the structures with the flags as np.bool_ / 0-1 integers. Non-trivial: the atom-level '
         'answer is non-empty and at least one of shared-number, negative-number, backbone-restricted-extension, '
         'extension-adds-atoms, several-atoms-per-residue holds.')
 MANDATORY = ['shared-number', 'negative-number', 'backbone-restricted-extension', 'extension-adds-atoms']
 
-def impl_residues(st, cutoff, allch, c1, c2, obb, exh, pairs):
+def impl_residues(st, cutoff, allch, c1, c2, obb, exh, pairs, car=None):
+    fc = (car or {}).get('flags')       # the flags as NumPy booleans / 0-1 integers
     return run_impl(lambda: (canon_respairs if pairs else canon_resdict)(st.db.get_contact_residues(
-        cutoff=cutoff, allchains=allch, chain1=c1, chain2=c2, only_backbone_atoms=obb, excludeH=exh,
-        return_contact_pairs=pairs)))
+        cutoff=cutoff, allchains=carry(allch, fc), chain1=c1, chain2=c2, only_backbone_atoms=carry(obb, fc), excludeH=carry(exh, fc),
+        return_contact_pairs=carry(pairs, fc))))
 
 def make_case(lines, cutoff, allch, c1, c2, obb, exh, pairs, extend):
     return {'fn': 'residues', 'lines': lines, 'cutoff': cutoff, 'allchains': allch, 'chain1': c1, 'chain2': c2,
@@ -36,6 +37,7 @@ def evaluate(ctx, rep, pdb2sql, groups, record=True):
     for grp in groups:
         lines, cutoff, cfgs, base = grp[:4]
         renum = grp[4] if len(grp) > 4 else None
+        car = grp[5] if len(grp) > 5 else None
         st = Struct(pdb2sql, lines)
         if renum:
             # repeated use of ONE object: residues are asked for, then the residues are renumbered / renamed through the
@@ -67,10 +69,10 @@ def evaluate(ctx, rep, pdb2sql, groups, record=True):
                     for pairs in (False, True):
                         for extend in (False, True):
                             if extend:
-                                impl = impl_atoms(st, cutoff, allch, c1, c2, obb, exh, pairs, extend=True)
+                                impl = impl_atoms(st, cutoff, allch, c1, c2, obb, exh, pairs, extend=True, car=car)
                                 mreq = ['contact.atoms', st.wire, fq, allch, c1, c2, True, obb, exh, pairs]
                             else:
-                                impl = impl_residues(st, cutoff, allch, c1, c2, obb, exh, pairs)
+                                impl = impl_residues(st, cutoff, allch, c1, c2, obb, exh, pairs, car=car)
                                 mreq = ['contact.residues', st.wire, fq, allch, c1, c2, obb, exh, pairs]
                             k = len(reqs)
                             reqs.append(mreq)
@@ -98,6 +100,7 @@ def evaluate(ctx, rep, pdb2sql, groups, record=True):
                             if src[0] != 'OK': feats.append('outside-domain(tie-only)')
                             cs_ = make_case(lines, cutoff, allch, c1, c2, obb, exh, pairs, extend)
                             if renum: cs_['prime_then_renumber'] = renum
+                            if car: cs_['carriers'] = dict(car); feats.append('flags-as-' + car['flags'])
                             plan.append((cs_, impl, k, ks, direct, feats))
     outs = ctx.model.batch(reqs)
     rep.model_reqs += reqs
@@ -176,6 +179,8 @@ def explore(ctx, tier, rng, search=False):
         grp = (to_lines(atoms), cutoff, configs_for(chains, rng, full=(len(chains) <= 3 and big)), [])
         if rng.random() < 0.15:
             grp = grp + (rng.choice([1, 100, -7]),)
+        elif rng.random() < 0.2:
+            grp = grp + (None, {'flags': rng.choice(['npbool', 'int01'])})
         groups.append(grp)
     for i in range(0, len(groups), 10):
         evaluate(ctx, rep, pdb2sql, groups[i:i + 10])
@@ -192,8 +197,8 @@ def replay(ctx, case):
     pdb2sql = import_impl()
     rep = Report()
     grp = (case['lines'], case['cutoff'], [(case['allchains'], case['chain1'], case['chain2'], True)], [])
-    if case.get('prime_then_renumber'):
-        grp = grp + (case['prime_then_renumber'],)
+    if case.get('prime_then_renumber') or case.get('carriers'):
+        grp = grp + (case.get('prime_then_renumber'), case.get('carriers'))
     res = evaluate(ctx, rep, pdb2sql, [grp], record=False)
     for c, vok, tok, text in res:
         if all(c[k] == case[k] for k in ('only_bb', 'exclH', 'pairs', 'extend')):
